@@ -31,7 +31,10 @@ from vk.report import Collector, Report, run_parallel, std_args
 PROP = "C01"
 T0 = "model A\n  Real x;\nequation\n  x = 1;\nend A;\n"
 TEXTS = {"T0": T0, "T0w": T0 + "  \n", "T1": "model B\n  Real y(start = 2);\nequation\n  der(y) = -y;\nend B;\n",
-         "B0": "model A\n  Real x\nequation\n  x = ;\nend A;\n"}
+         "B0": "model A\n  Real x\nequation\n  x = ;\nend A;\n",
+         # the same lines with LF / CRLF line ends: the description string spans two lines, so the trees differ
+         "T2": 'model D "first line\nsecond line"\n  Real z = 3;\nend D;\n',
+         "T2c": 'model D "first line\r\nsecond line"\r\n  Real z = 3;\r\nend D;\r\n'}
 CUR, OLD = "9.9.9", "9.9.8"
 PAYLOADS = ["valid", "garbage", "truncated", "missing-class", "missing-module", "empty-stack"]
 AGES = {"expired": -40 * 86400, "day-old": -2 * 86400, "recent": -3600}
@@ -177,14 +180,14 @@ def step(col, st, d):
 def states(tier):
     """Pre-states, enumerated by z3 from the range constraints + invariant."""
     from vk.allsat import all_models
-    P = ["T0", "T0w", "B0"]
+    P = ["T0", "T0w", "B0", "T2c"]
     KEYTEXT = ["same", "other"]            # row 1 keyed by the parsed text / by another text
     VERS = [CUR, OLD]
     ROW2 = ["none", "same-text-other-version", "other-text-expired"]
     MODELS = ["ok", "wrong", "missing", "nofile"]
     META = ["ok", "nokeys", "wrong", "missing"]
     names = ["p", "r1", "k1", "v1", "pl1", "ag1", "r2", "models", "meta", "init", "exp", "upd", "ver", "corrupt"]
-    rng = {"p": (0, 2), "r1": (0, 1), "k1": (0, 1), "v1": (0, 1), "pl1": (0, 5), "ag1": (0, 2), "r2": (0, 2), "models": (0, 3), "meta": (0, 3),
+    rng = {"p": (0, 3), "r1": (0, 1), "k1": (0, 1), "v1": (0, 1), "pl1": (0, 5), "ag1": (0, 2), "r2": (0, 2), "models": (0, 3), "meta": (0, 3),
            "init": (0, 1), "exp": (0, 1), "upd": (0, 1), "ver": (0, 2), "corrupt": (0, 1)}
     import z3
 
@@ -208,7 +211,7 @@ def states(tier):
     for t in all_models(names, rng, cons):
         v = dict(zip(names, t))
         p = P[v["p"]]
-        other = "T1" if p != "T0" else "T0w"
+        other = {"T0": "T0w", "T2c": "T2"}.get(p, "T1")  # the "other" text is the closest neighbour of the parsed one
         rows = []
         if v["r1"]:
             rows.append((p if v["k1"] == 0 else other, VERS[v["v1"]], PAYLOADS[v["pl1"]], list(AGES)[v["ag1"]]))
@@ -298,7 +301,7 @@ def sequences():
     out = []
     for ev in ("none", "corrupt-file", "drop-models", "drop-metadata", "wrong-layout", "delete-file", "damage-row", "version-change", "reload",
                "corrupt-file+reload", "drop-models+reload"):
-        for p1, p2 in (("T0", "T0"), ("T0", "T0w"), ("T0", "B0"), ("B0", "T0"), ("T0", "T1")):
+        for p1, p2 in (("T0", "T0"), ("T0", "T0w"), ("T0", "B0"), ("B0", "T0"), ("T0", "T1"), ("T2", "T2c"), ("T2c", "T2")):
             out.append({"seq": (ev, p1, p2)})
     return out
 
@@ -330,7 +333,7 @@ def main():
     cov["traces_validated_against_impl"] = cov.get("steps", 0)
     cov["exhaustive"] = not rep.harness_errors
     cov["functions_encoded"] = ["pymoca.parser.parse, _check_database_structure, _calculate_txt_hash (real code on a real sqlite file, one step from every pre-state of the bounded space)"]
-    cov["bounds"] = ("parsed text in {valid, same + trailing whitespace, syntax error}; 0-2 rows: row 1 keyed by the parsed text or another text x version {current, other} x payload {intact, "
+    cov["bounds"] = ("parsed text in {valid, same + trailing whitespace, syntax error, CRLF twin of an LF text with a two-line string}; 0-2 rows: row 1 keyed by the parsed text or another text x version {current, other} x payload {intact, "
                      "garbage, truncated, missing class, missing module, empty-stack pickle} x age {expired, a day old, recent}, row 2 {none, same text other version, other text expired}; "
                      "models table {ok, wrong columns, missing, no file}; metadata table {ok, no keys, wrong columns, missing}; corrupt file; database already initialised by this process "
                      "or not; version {current, other, dirty}; cache_expiration_days {0, 30}; always_update_last_hit; plus 55 two-step histories (damage / version change / reload between two parses)")
